@@ -107,6 +107,11 @@ KINDS = ["gauss_diag", "gauss_unit", "gauss_scaling", "gauss_sandwich", "poisson
          # narrow integers (masks, detector files) and float32 data
          "gauss_diag@float32", "gauss_unit@float32"]
 INT_DTYPES = ("int64", "int32", "uint8", "uint16", "uint64")
+# every parenthesisation of likelihood sums (summands a: Gaussian, b: Bernoulli, c: Poisson, d: inverse gamma, each on
+# its own key; "s" = some summands scaled by a ScalingOperator)
+SUM_SHAPES = {"sum_left": "((a+b)+c)", "sum_right": "(a+(b+c))", "sum_balanced": "((a+b)+(c+d))", "sum_deep": "(a+(b+(c+d)))",
+              "sum_scaled_right": "(2a+(3b+c))", "sum_scaled_balanced": "((a+2b)+(3c+d))", "sum_chain4": "(((a+b)+c)+d)"}
+KINDS += sorted(SUM_SHAPES)
 KINDS += ["%s@%s" % (k, t) for k in ("bernoulli", "poisson", "categorical") for t in INT_DTYPES[1:]]
 
 
@@ -309,6 +314,44 @@ def make(kind, seed, n=3):
             return np.block([[ma, z], [z, mb]])
         I.expected_metric = em
         return finish(lh, x, {"a": np.float64, "b": np.float64})
+    if kind in SUM_SHAPES:
+        parts = {"a": make("gauss_diag", seed, n), "b": make("bernoulli", seed, n), "c": make("poisson", seed, n), "d": make("invgamma", seed, n)}
+        expr = SUM_SHAPES[kind]
+        fac = {}
+
+        def parse(i):
+            """recursive descent over '(' term '+' term ')' | [digit] letter; returns (operator, next index)"""
+            if expr[i] == "(":
+                l, i = parse(i + 1)
+                assert expr[i] == "+"
+                r, i = parse(i + 1)
+                assert expr[i] == ")"
+                return l + r, i + 1
+            f = 1.0
+            if expr[i].isdigit():
+                f, i = float(expr[i]) + 0.5, i + 1          # 2 -> 2.5, 3 -> 3.5: not a perfect square
+            k = expr[i]
+            fac[k] = f
+            e = parts[k].energy.ducktape(k)
+            if f != 1.0:
+                e = ift.ScalingOperator(e.target, f) @ e
+            return e, i + 1
+        lh, _ = parse(0)
+        keys = sorted(fac)
+        x = ift.MultiField.from_dict({k: parts[k].x for k in keys})
+        I.params = {"shape": expr, "factors": fac}
+        I.parts, I.fac = {k: parts[k] for k in keys}, fac
+        I.logp = lambda p: sum(fac[k] * parts[k].logp(p[k]) for k in keys)
+
+        def em(p):
+            out = np.zeros((n * len(keys), n * len(keys)))
+            for j, k in enumerate(keys):                  # coordinates are ordered by key
+                out[j * n:(j + 1) * n, j * n:(j + 1) * n] = fac[k] * metric_dense_of(parts[k].energy, p[k], parts[k].coords)
+            return out
+        I.expected_metric = em
+        if set(lh.domain.keys()) != set(keys):
+            raise ValueError("domain of the sum %s has keys %s, expected %s" % (expr, sorted(lh.domain.keys()), keys))
+        return finish(lh, x, {k: np.float64 for k in keys})
     if kind == "scaled_model_vcg_real":
         base = make("vcg_real", seed, n)
         f = logu(rng, 0.2, 5)
@@ -610,6 +653,27 @@ def corr_cases(rend, seed, nrep):
                 mr = [R["vcg_cplx_M_r"](float(b)) for b in iv]
                 byk = {"r": [v for m_ in mr for v in (m_, m_)], "i": [R["vcg_cplx_M_i"](float(b)) for b in iv]}
                 yield "vcg_cplx metric", [v for k, _, _, _ in I.coords.slots for v in byk[k]], np.diag(M)
+        # sums in every parenthesisation against the sum of the GENERATED per-pixel energies of the summands
+        def gen_E(k, P):
+            xx = P.x.asnumpy()
+            if k == "a":
+                return sum(R["gauss_quadform"](float(c), R["gauss_residual"](float(dd), float(v))) for dd, c, v in zip(P.params["d"], P.params["icov"], xx))
+            if k == "b":
+                return sum(R["bernoulli_E"](float(dd), float(v)) for dd, v in zip(P.params["d"], xx))
+            if k == "c":
+                return sum(R["poisson_E"](float(dd), float(v)) for dd, v in zip(P.params["d"], xx))
+            return sum(R["invgamma_E"](float(al + 1), float(be), float(v)) for al, be, v in zip(P.params["alpha"], P.params["beta"], xx))
+        for kind in sorted(SUM_SHAPES):
+            try:
+                I = make(kind, s)
+            except Exception as e:        # the implementation could not even build / evaluate the sum: a disagreement, not a crash
+                yield "%s %s cannot be built: %s" % (kind, SUM_SHAPES[kind], repr(e)[:150]), [0.0], [float("nan")]
+                continue
+            yield "%s %s energy" % (kind, SUM_SHAPES[kind]), sum(I.fac[k] * gen_E(k, I.parts[k]) for k in I.parts), energy_value(I.energy, I.x)
+            M = metric_dense_of(I.energy, I.x, I.coords)
+            n_ = I.n
+            j = sorted(I.parts).index("a")
+            yield "%s metric block of the Gaussian summand (= factor * icov)" % kind, I.fac["a"] * I.parts["a"].params["icov"], np.diag(M)[j * n_:(j + 1) * n_]
         for kind in ("sgamma_real", "sgamma_cplx"):
             I = make(kind, s)
             r, x = I.params["r"], I.x.asnumpy()
